@@ -9,7 +9,10 @@ From src/gdef.rs     : GLYPH_CLASS_* constants, and the shape of `glyph_is_mark_
 From src/gsub.rs     : SUBST_RECURSION_LIMIT, the FEATURE_MASKS table (mask bit, tag), `FeatureMask::from_tag`,
                        the tags `singlesubst` turns into IS_VERT_ALT, the tags special-cased by
                        `build_lookups_custom` / `gsub_apply_custom` (rvrn, fina).
-From src/layout.rs   : GSUB `check_lookup_type` (lookup type number -> kind; 0 encodes Extension).
+From src/layout.rs   : GSUB `check_lookup_type` (lookup type number -> kind; 0 encodes Extension); feature variations:
+                       the version / format numbers of LayoutTable::read, FeatureVariations::read,
+                       FeatureTableSubstitutionTable::read and ConditionTable::read, and the SHAPE of every
+                       function Model/FeatureVariations.v is written after (see `feature_variations` below).
 From src/tag.rs      : numeric values of the tags named above.
 
 Output: coq/Gen/LayoutConsts.v (next to this script's repository).  Exit 0 = anchors parsed; 2 = an anchor
@@ -77,6 +80,210 @@ def tagval(tagsrc, name):
     m = need(re.search(r"pub const %s: u32 = tag!\(b\"(.{4})\"\);" % name, tagsrc), "tag::" + name)
     b = m.group(1).encode()
     return int.from_bytes(b, "big")
+
+
+
+def norm2(s):
+    """norm + method chains on one line (`scope .offset(..)` == `scope.offset(..)`)"""
+    return re.sub(r" \.", ".", norm(s))
+
+
+def expect(body, literal, what):
+    """fullmatch of a normalised body against a literal in which every `<N>` stands for a decimal literal;
+    returns the numbers"""
+    rx = re.escape(literal).replace(re.escape("<N>"), r"(\d+)")
+    m = re.fullmatch(rx, body)
+    if not m:
+        raise Broken("%s changed shape: %s" % (what, body[:700]))
+    return [num(g) for g in m.groups()]
+
+
+def feature_variations(layout, gsub, fvar, consts):
+    """OpenType feature variations: every function Model/FeatureVariations.v was written after is pinned to
+    its shape (the match arms of FeatureVariationsOwned::matches, the NULL-offset special cases, the early
+    break of substitute, the inclusive range test, the read order of every table); the version / format
+    numbers they compare with are extracted."""
+    b = fn_body(layout, r"impl FeatureVariationsOwned \{")
+    expect(norm2(fn_body(b, r"pub fn matches<'a>\(")),
+           "for rec in &self.records { match rec.matches(self.record_scope.scope(), tuple) { "
+           "substitution @ Ok(Some(_)) => return substitution, "
+           "Ok(None) | Err(ParseError::BadVersion) => continue, "
+           "err @ Err(_) => return err, } } Ok(None)", "FeatureVariationsOwned::matches")
+    b = fn_body(layout, r"impl FeatureVariationRecord \{")
+    expect(norm2(fn_body(b, r"pub fn matches<'a>\(")),
+           "if self.condition_set(scope)?.matches(tuple) { self.feature_table_substitution(scope).map(Some) } "
+           "else { Ok(None) }", "FeatureVariationRecord::matches")
+    n = expect(norm2(fn_body(b, r"fn condition_set<'a>\(")),
+               "if self.condition_set_offset == <N> { Ok(ConditionSet::Universal) } else { "
+               "scope.offset(usize::safe_from(self.condition_set_offset)).read::<ConditionSetTable<'_>>()"
+               ".map(ConditionSet::Set) }", "FeatureVariationRecord::condition_set")
+    n += expect(norm2(fn_body(b, r"fn feature_table_substitution<'a>\(")),
+                "if self.feature_table_substitution_offset == <N> { Ok(FeatureTableSubstitution::NoSubstitution) } else { "
+                "scope.offset(usize::safe_from(self.feature_table_substitution_offset))"
+                ".read::<FeatureTableSubstitutionTable<'_>>().map(FeatureTableSubstitution::Table) }",
+                "FeatureVariationRecord::feature_table_substitution")
+    if n != [0, 0]:
+        raise Broken("FeatureVariationRecord: the NULL offset is no longer 0: %s" % n)
+    expect(norm2(fn_body(layout, r"impl ReadFrom for FeatureVariationRecord \{")),
+           "type ReadType = (U32Be, U32Be); fn read_from((condition_set_offset, feature_table_substitution_offset): "
+           "(u32, u32)) -> Self { FeatureVariationRecord { condition_set_offset, feature_table_substitution_offset, } }",
+           "FeatureVariationRecord::read_from")
+    b = fn_body(layout, r"impl FeatureTableSubstitution<'_> \{")
+    expect(norm2(fn_body(b, r"pub fn cache_key\(")),
+           "match self { FeatureTableSubstitution::NoSubstitution => None, "
+           "FeatureTableSubstitution::Table(table) => Some(table.substitution_scope.base()), }",
+           "FeatureTableSubstitution::cache_key")
+    expect(norm2(fn_body(b, r"pub fn substitute\(")),
+           "match self { FeatureTableSubstitution::NoSubstitution => None, "
+           "FeatureTableSubstitution::Table(table) => { let mut substitution_record = None; "
+           "for rec in table.substitutions.iter() { "
+           "if rec.feature_index == feature_index { substitution_record = Some(rec); break; } "
+           "else if rec.feature_index > feature_index { break; } } "
+           "let substitution_record = substitution_record?; "
+           "table.substitution_scope.offset(usize::safe_from(substitution_record.alternate_feature_offset))"
+           ".read::<FeatureTable>().ok() } }", "FeatureTableSubstitution::substitute")
+    expect(norm2(fn_body(layout, r"impl ConditionSet<'_> \{")),
+           "fn matches(&self, tuple: Tuple<'_>) -> bool { match self { ConditionSet::Universal => true, "
+           "ConditionSet::Set(set) => set.matches(tuple), } }", "ConditionSet::matches")
+    expect(norm2(fn_body(layout, r"impl ConditionSetTable<'_> \{")),
+           "fn matches(&self, tuple: Tuple<'_>) -> bool { self.condition_offsets.iter()"
+           ".map(|offset| { self.condition_scope.offset(usize::safe_from(offset)).read::<ConditionTable>() })"
+           ".all(|table| table.map(|table| table.matches(tuple)).unwrap_or(false)) }", "ConditionSetTable::matches")
+    expect(norm2(fn_body(layout, r"impl ConditionTable \{")),
+           "fn matches(&self, tuple: Tuple<'_>) -> bool { match self { ConditionTable::Unknown => false, "
+           "ConditionTable::Format1(condition_set) => { "
+           "let axis_value = match tuple.get(condition_set.axis_index) { Some(value) => value, None => return false, }; "
+           "(condition_set.filter_range_min_value..=condition_set.filter_range_max_value).contains(&axis_value) } } }",
+           "ConditionTable::matches")
+    n = expect(norm2(fn_body(layout, r"impl ReadBinary for ConditionTable \{")),
+               "type HostType<'a> = Self; fn read<'a>(ctxt: &mut ReadCtxt<'a>) -> Result<Self, ParseError> { "
+               "let format = ctxt.read_u16be()?; match format { "
+               "<N> => Ok(ConditionTable::Format1(ctxt.read::<ConditionFormat1>()?)), "
+               "_ => Ok(ConditionTable::Unknown), } }", "ConditionTable::read")
+    consts.append(("FV_CONDITION_FORMAT_AXIS_RANGE", n[0]))
+    expect(norm2(fn_body(layout, r"impl ReadFrom for ConditionFormat1 \{")),
+           "type ReadType = (U16Be, F2Dot14, F2Dot14); "
+           "fn read_from((axis_index, filter_range_min_value, filter_range_max_value): (u16, F2Dot14, F2Dot14)) -> Self { "
+           "ConditionFormat1 { axis_index, filter_range_min_value, filter_range_max_value, } }", "ConditionFormat1::read_from")
+    expect(norm2(fn_body(layout, r"impl ReadBinary for ConditionSetTable<'_> \{")),
+           "type HostType<'a> = ConditionSetTable<'a>; "
+           "fn read<'a>(ctxt: &mut ReadCtxt<'a>) -> Result<Self::HostType<'a>, ParseError> { "
+           "let condition_scope = ctxt.scope(); let condition_count = ctxt.read_u16be()?; "
+           "let conditions = ctxt.read_array(usize::from(condition_count))?; "
+           "Ok(ConditionSetTable { condition_scope, condition_offsets: conditions, }) }", "ConditionSetTable::read")
+    need(re.search(r"struct ConditionSetTable<'a> \{\s*condition_scope: ReadScope<'a>,\s*condition_offsets: ReadArray<'a, U32Be>,\s*\}",
+                   layout), "ConditionSetTable: condition offsets are no longer 32-bit")
+    n = expect(norm2(fn_body(layout, r"impl ReadBinary for FeatureVariations<'_> \{")),
+               "type HostType<'a> = FeatureVariations<'a>; "
+               "fn read<'a>(ctxt: &mut ReadCtxt<'a>) -> Result<Self::HostType<'a>, ParseError> { "
+               "let record_scope = ctxt.scope(); let major_version = ctxt.read_u16be()?; "
+               "ctxt.check_version(major_version == <N>)?; let _minor_version = ctxt.read_u16be()?; "
+               "let record_count = ctxt.read_u32be()?; let records = ctxt.read_array(usize::safe_from(record_count))?; "
+               "Ok(FeatureVariations { record_scope, records, }) }", "FeatureVariations::read")
+    consts.append(("FV_MAJOR", n[0]))
+    expect(norm2(fn_body(layout, r"impl ReadBinary for FeatureVariationsOwned \{")),
+           "type HostType<'a> = FeatureVariationsOwned; "
+           "fn read<'a>(ctxt: &mut ReadCtxt<'a>) -> Result<Self::HostType<'a>, ParseError> { "
+           "let feature_variations = ctxt.read::<FeatureVariations<'_>>()?; "
+           "Ok(FeatureVariationsOwned { record_scope: ReadScopeOwned::new(feature_variations.record_scope), "
+           "records: feature_variations.records.to_vec(), }) }", "FeatureVariationsOwned::read")
+    n = expect(norm2(fn_body(layout, r"impl ReadBinary for FeatureTableSubstitutionTable<'_> \{")),
+               "type HostType<'a> = FeatureTableSubstitutionTable<'a>; "
+               "fn read<'a>(ctxt: &mut ReadCtxt<'a>) -> Result<Self::HostType<'a>, ParseError> { "
+               "let substitution_scope = ctxt.scope(); let major_version = ctxt.read_u16be()?; "
+               "ctxt.check_version(major_version == <N>)?; let _minor_version = ctxt.read_u16be()?; "
+               "let substitution_count = ctxt.read_u16be()?; "
+               "let substitutions = ctxt.read_array(usize::from(substitution_count))?; "
+               "Ok(FeatureTableSubstitutionTable { substitution_scope, substitutions, }) }",
+               "FeatureTableSubstitutionTable::read")
+    consts.append(("FV_SUBST_MAJOR", n[0]))
+    expect(norm2(fn_body(layout, r"impl ReadFrom for FeatureTableSubstitutionRecord \{")),
+           "type ReadType = (U16Be, U32Be); fn read_from((feature_index, alternate_feature_offset): (u16, u32)) -> Self { "
+           "FeatureTableSubstitutionRecord { feature_index, alternate_feature_offset, } }",
+           "FeatureTableSubstitutionRecord::read_from")
+    expect(norm2(fn_body(layout, r"impl ReadBinary for FeatureTable \{")),
+           "type HostType<'a> = Self; fn read<'a>(ctxt: &mut ReadCtxt<'a>) -> Result<Self, ParseError> { "
+           "let _feature_params = ctxt.read_u16be()?; let lookup_index_count = usize::from(ctxt.read_u16be()?); "
+           "let lookup_indices = ctxt.read_array::<U16Be>(lookup_index_count)?.to_vec(); "
+           "Ok(FeatureTable { lookup_indices }) }", "FeatureTable::read")
+    # LayoutTable::read: header fields, major version test, the featureVariationsOffset tail
+    body = norm2(fn_body(layout, r"impl<T> ReadBinary for LayoutTable<T> \{"))
+    m = need(re.match(
+        r"type HostType<'a> = Self; fn read<'a>\(ctxt: &mut ReadCtxt<'a>\) -> Result<Self, ParseError> \{ "
+        r"let table = ctxt\.scope\(\); let major_version = ctxt\.read_u16be\(\)\?; let minor_version = ctxt\.read_u16be\(\)\?; "
+        r"let script_list_offset = usize::from\(ctxt\.read_u16be\(\)\?\); "
+        r"let feature_list_offset = usize::from\(ctxt\.read_u16be\(\)\?\); "
+        r"let lookup_list_offset = usize::from\(ctxt\.read_u16be\(\)\?\); "
+        r"if major_version != (\d+) \{ return Err\(ParseError::BadVersion\); \} ", body), "LayoutTable::read header: " + body[:300])
+    consts.append(("LAYOUT_MAJOR", num(m.group(1))))
+    tail = ("let opt_feature_variations = (minor_version > 0).then(|| ctxt.read_u32be()).transpose()?"
+            ".filter(|offset| *offset > 0).map(|offset| { table.offset(usize::safe_from(offset)).ctxt()"
+            ".read::<FeatureVariationsOwned>() }).transpose()?; "
+            "Ok(LayoutTable { opt_script_list, opt_feature_list, opt_lookup_list, opt_feature_variations, }) }")
+    if not body.endswith(tail):
+        raise Broken("LayoutTable::read featureVariationsOffset tail changed shape: " + body[-500:])
+    if "ctxt.read" in body[m.end():len(body) - len(tail)]:
+        raise Broken("LayoutTable::read reads more header fields between the list offsets and featureVariationsOffset")
+    expect(norm2(fn_body(layout, r"pub fn feature_variations<'a>\(")),
+           "match (tuple, self.opt_feature_variations.as_ref()) { "
+           "(Some(tuple), Some(feature_variations)) => feature_variations.matches(tuple), _ => Ok(None), }",
+           "LayoutTable::feature_variations")
+    expect(norm2(fn_body(layout, r"pub fn find_langsys_feature\(")),
+           "let feature_variations = feature_variations.unwrap_or(&FeatureTableSubstitution::NoSubstitution); "
+           "if let Some(ref feature_list) = self.opt_feature_list { "
+           "for feature_index in langsys.feature_indices.iter().copied() { "
+           "let feature_record = feature_list.nth_feature_record(usize::from(feature_index))?; "
+           "if feature_record.feature_tag == feature_tag { "
+           "let feature_table = feature_variations.substitute(feature_index).map(Cow::Owned)"
+           ".unwrap_or(Cow::Borrowed(&feature_record.feature_table)); "
+           "return Ok(Some(feature_table)); } } } Ok(None)", "LayoutTable::find_langsys_feature")
+    expect(norm2(fn_body(fvar, r"pub fn get\(&self, index: u16\) -> Option<F2Dot14> \{")),
+           "self.0.get(usize::from(index)).copied()", "Tuple::get")
+    need(re.search(r"#\[derive\(([^)]*\bOrd\b[^)]*)\)\]\s*pub struct F2Dot14\(i16\);",
+                   strip_comments(read("src/tables.rs"))), "F2Dot14 is no longer ordered by its raw i16 value")
+    # gsub.rs consumers
+    body = norm2(fn_body(gsub, r"fn apply_rvrn\("))
+    m = need(re.fullmatch(
+        r"let gsub_table = &gsub_cache\.layout_table; "
+        r"let index = get_lookups_cache_index\(gsub_cache, script_tag, opt_lang_tag, feature_variations, FeatureMask::(\w+)\)\?; "
+        r"let lookups = &gsub_cache\.cached_lookups\.borrow\(\)\[index\]; "
+        r"gsub_apply_lookups\(gsub_cache, gsub_table, opt_gdef_table, lookups, glyphs\)\?; Ok\(\(\)\)", body), "apply_rvrn body: " + body)
+    rvrn_mask = m.group(1)
+    expect(norm2(fn_body(gsub, r"fn build_lookups_custom\(")),
+           "let mut rvrn = None; let mut lookups = BTreeMap::new(); for feature_info in feature_tags { "
+           "let feature_table = gsub_table.find_langsys_feature(langsys, feature_info.feature_tag, feature_variations)?; "
+           "if let Some(feature_table) = feature_table { if feature_info.feature_tag == tag::RVRN { "
+           "rvrn = Some(feature_table.lookup_indices.clone()); } else { "
+           "lookups.extend(feature_table.lookup_indices.iter()"
+           ".map(|&lookup_index| (usize::from(lookup_index), feature_info.feature_tag))) } } } "
+           "Ok(LookupsCustom { rvrn, lookups })", "build_lookups_custom")
+    expect(norm2(fn_body(gsub, r"pub fn get_lookups_cache_index\(")),
+           "let index = match gsub_cache.lookups_index.borrow_mut().entry((script_tag, opt_lang_tag, feature_mask.bits(), "
+           "feature_variations.and_then(FeatureTableSubstitution::cache_key))) { "
+           "Entry::Occupied(entry) => *entry.get(), Entry::Vacant(entry) => { "
+           "let gsub_table = &gsub_cache.layout_table; "
+           "if let Some(script) = gsub_table.find_script_or_default(script_tag)? { "
+           "if let Some(langsys) = script.find_langsys_or_default(opt_lang_tag)? { "
+           "let lookups = build_lookups_default(gsub_table, langsys, feature_mask, feature_variations)?; "
+           "let index = gsub_cache.cached_lookups.borrow().len(); "
+           "gsub_cache.cached_lookups.borrow_mut().push(lookups); *entry.insert(index) } "
+           "else { *entry.insert(0) } } else { *entry.insert(0) } } }; Ok(index)", "get_lookups_cache_index")
+    body = norm2(fn_body(gsub, r"fn gsub_apply_custom\("))
+    need(re.match(
+        r"let gsub_table = &gsub_cache\.layout_table; "
+        r"if let Some\(script\) = gsub_table\.find_script_or_default\(script_tag\)\? \{ "
+        r"if let Some\(langsys\) = script\.find_langsys_or_default\(opt_lang_tag\)\? \{ "
+        r"let feature_variations = gsub_table\.feature_variations\(tuple\)\?; "
+        r"let feature_variations = feature_variations\.as_ref\(\); "
+        r"let lookups = build_lookups_custom\(gsub_table, langsys, features_list, feature_variations\)\?; ", body),
+         "gsub_apply_custom prologue: " + body[:500])
+    body = norm2(fn_body(gsub, r"fn gsub_apply_default\("))
+    need(re.match(
+        r"let gsub_table = &gsub_cache\.layout_table; "
+        r"let feature_variations = gsub_table\.feature_variations\(tuple\)\?; "
+        r"let feature_variations = feature_variations\.as_ref\(\); if tuple\.is_some\(\) \{ apply_rvrn\(", body),
+         "gsub_apply_default prologue: " + body[:400])
+    return rvrn_mask
 
 
 def main():
@@ -196,6 +403,7 @@ def main():
     consts.append(("JOINER_1", int(mm.group(1), 16)))
     consts.append(("JOINER_2", int(mm.group(2), 16)))
     mask_removed_name, mask_frac_name = removed, frac
+    rvrn_mask_name = feature_variations(layout, gsub, strip_comments(read("src/tables/variable_fonts/fvar.rs")), consts)
 
     # FeatureMask bits and FEATURE_MASKS table
     bits = {}
@@ -204,7 +412,7 @@ def main():
         bits[n] = int(sh)
     if not bits:
         raise Broken("FeatureMask bits")
-    for nm, cname in ((mask_removed_name, "MASK_BIT_REMOVED"), (mask_frac_name, "MASK_BIT_SPLIT")):
+    for nm, cname in ((mask_removed_name, "MASK_BIT_REMOVED"), (mask_frac_name, "MASK_BIT_SPLIT"), (rvrn_mask_name, "MASK_BIT_RVRN")):
         if nm not in bits:
             raise Broken("unknown FeatureMask::" + nm)
         consts.append((cname, bits[nm]))
